@@ -60,12 +60,12 @@ class KademliaRPC:
             raise ValueError(f"invalid length of blob hash: {len(blob_hash)}")
         if not 0 < port < 65535:
             raise ValueError(f"invalid tcp port: {port}")
-        rpc_contact.update_tcp_port(port)
         if not self.verify_token(token, rpc_contact.compact_ip()):
             if self.loop.time() - self.protocol.started_listening_time < constants.TOKEN_SECRET_REFRESH_INTERVAL:
                 pass
             else:
                 raise ValueError("Invalid token")
+        rpc_contact.update_tcp_port(port)
         self.protocol.data_store.add_peer_to_blob(
             rpc_contact, blob_hash
         )
